@@ -602,7 +602,7 @@ pub fn c08(rep: &mut Report) {
 
 pub fn c07(rep: &mut Report) {
     let thorough = rep.thorough();
-    let n = if thorough { 12 } else { 9 };
+    let n = if thorough { 14 } else { 9 };
     // three layouts of n unique chunks: contiguous, with gaps, permuted (descriptor order != file order)
     let sizes: Vec<usize> = (0..n).map(|i| 2 + (i * 3) % 5).collect();
     let mut layouts: Vec<(String, Vec<(u64, usize)>)> = vec![];
